@@ -54,3 +54,10 @@ Theorem C11_float_for_int_needs_exception_refuted :
   exists p r, In p int_options /\ wrong_rejected component_full p (VFlt r) = false.
 Proof. exists p_repeat_interval, "2.5". split; [vm_compute; tauto | vm_compute; reflexivity]. Qed.
 Print Assumptions C11_float_for_int_needs_exception_refuted.
+
+(* the applicability condition of RemoveCompVar cannot be dropped: a component variable that nothing uses (lv of
+   component a of the example) can be removed without harm.  Not a defect. *)
+Theorem C11_remove_comp_var_needs_use_refuted :
+  exists w i n, accept component_full w = true /\ accept component_full (mutate (RemoveCompVar i n) w) = true.
+Proof. exists ex_wf, 0%nat, "lv". vm_compute. split; reflexivity. Qed.
+Print Assumptions C11_remove_comp_var_needs_use_refuted.
